@@ -1,0 +1,10 @@
+//go:build verif
+
+// Contracts for package pubsub, checked by /verif (bfvc). Comment-only.
+package pubsub
+
+//@ ifacegetters BuildChannelSubscription
+
+// Channel subscriptions are never de-duplicated (each directive is a unique handle).
+//@ func (*buildChannelSubscription).IsEquivalent
+//@   ensures !ret
